@@ -8,7 +8,7 @@
    repeated-run search, not by proof. *)
 From Coq Require Import List NArith Bool Permutation.
 From Verif Require Import Base.Res Model.Analyzer Proofs.AnalyzerProofs Base.Text Model.Scope Proofs.ScopeProofs Gen.GenRules Model.Rules Proofs.RulesProofs.
-From Verif Require Gen.GenExprKind Proofs.ExprKindGen Model.ExprKind Proofs.ExprKindProofs Model.DataDecl Proofs.DataDeclProofs Proofs.DataDeclComplete.
+From Verif Require Model.DeclRules Proofs.DeclRulesProofs Gen.GenExprKind Proofs.ExprKindGen Model.ExprKind Proofs.ExprKindProofs Model.DataDecl Proofs.DataDeclProofs Proofs.DataDeclComplete.
 Import ListNotations.
 
 Theorem C06_verdict_order_independent :
@@ -114,3 +114,13 @@ Theorem C06_expression_resolver_model_is_the_source :
   (forall s, exists s', ExprKind.estep s ExprKind.EfEndAssign = Some (s', []) /\ ExprKind.e_cur s' = ExprKind.VkNone /\ ExprKind.e_tbl s' = ExprKind.e_tbl s) /\
   (forall s, exists s', ExprKind.estep s ExprKind.EfExit = Some (s', []) /\ ExprKind.e_tbl s' = [] /\ ExprKind.e_cur s' = ExprKind.e_cur s).
 Proof. exact ExprKindGen.model_is_the_source. Qed.
+
+(* the rules on type declarations: the verdict depends neither on the order of the declarations nor on the order of the elements
+   of a structure / the values of an enumeration *)
+Theorem C06_type_declaration_rules_order : forall (g : DeclRules.tyfact -> list DeclRules.ldiag) fs fs',
+  Permutation fs fs' -> (flat_map g fs = [] <-> flat_map g fs' = []).
+Proof. exact DeclRulesProofs.rule_perm. Qed.
+
+Theorem C06_element_order : forall mk l l', Permutation l l' ->
+  (DeclRules.scan mk [] l = [] <-> DeclRules.scan mk [] l' = []).
+Proof. exact DeclRulesProofs.scan_perm. Qed.
